@@ -772,14 +772,18 @@ func (m *machine) callFn(caller *frame, fn *ssa.Function, args []value, env []va
 		return h(m, caller, fn, args)
 	}
 	if tgt, ok := m.eng.redirects[name]; ok {
-		return m.callFunction(caller, tgt, args, nil)
+		if _, real := m.side["real:"+name]; !real {
+			return m.callFunction(caller, tgt, args, nil)
+		}
 	}
 	if fn.Pkg != nil && fn.Name() == "init" && fn.Pkg != m.eng.mainPkg && fn.Signature.Recv() == nil {
 		// package initialisers of dependencies are run lazily on first global access
 		return nil
 	}
 	if pkg := fnPkgPath(fn); pkg != "" && m.eng.blockedPkg(pkg) && fn.Synthetic == "" {
-		if !m.eng.allowedFn[name] {
+		if _, real := m.side["realpkg:"+pkg]; real {
+			// the harness asked for this package to be executed from its SSA
+		} else if !m.eng.allowedFn[name] {
 			m.unsupported("call into non-executed package: %s at %s", name, m.where())
 		}
 	}
